@@ -1,5 +1,6 @@
 import MetapypeModel.Model.Evaluate
 import MetapypeModel.Gen.Facts
+import MetapypeModel.Props.C20
 /-
   C19 — evaluation is total and reports exactly the documented recommendations.
   The model functions are total by construction (every partial Python operation of the repaired code
@@ -319,5 +320,22 @@ theorem C19_datatable (t : Tree) :
     ("DATATABLE_RECORD_DELIMITER_MISSING" ∈ dataTableRule t ↔ ∀ n, (dtParts t.children).rd = some n → truthy n.content = false) := by
   simp only [dataTableRule, List.mem_append, mem_dtDescW, mem_ite_missing]
   simp
+
+/-- the title recommendation counts WORDS: the non-blank pieces of the content between spaces / no-break spaces
+    (`normWords`, characterised by `normWords_spec` in Props/C20) - a piece that consists of white space only is not counted,
+    and a title without any word is too short -/
+theorem C19_title_word_count (pn : Option String) (t : Tree) :
+    "TITLE_TOO_SHORT" ∈ titleRule pn t ↔
+      pn = some "dataset" ∧ ∃ c, t.content = some c ∧ (normWords c.toList).length < 5 := by
+  rw [C19_title]
+  have key : ∀ cs : List Char, (splitSp (normalizeText cs)).length < 5 ↔ (normWords cs).length < 5 := by
+    intro cs
+    by_cases h : normWords cs = []
+    · have : normalizeText cs = [] := by unfold normalizeText; rw [h]; rfl
+      rw [this, h]; simp [splitSp]
+    · rw [C20_split_is_words cs h]
+  constructor
+  · rintro ⟨hp, c, hc, hl⟩; exact ⟨hp, c, hc, (key _).1 hl⟩
+  · rintro ⟨hp, c, hc, hl⟩; exact ⟨hp, c, hc, (key _).2 hl⟩
 
 end Metapype
